@@ -968,7 +968,8 @@ Section Ops.
     rewrite E in Hr. injection Hr as <-. exists fl.
     assert (Hd : forall h, cached st' h <-> In h fl) by (intros h; rewrite (g_dom _ _ _ _ _ _ _ _ _ _ _ HI); cbn; tauto).
     split; auto. split; [apply (lk_nodup _ _ Hl)|].
-    intros x Hc Hn. rewrite (g_exact _ _ _ _ _ _ _ _ _ _ _ HI x) by (auto; apply Hd; auto). cbn [cnt]. unfold u_of. lia.
+    intros x Hc Hn. assert (Hx : In x fl) by (apply Hd; auto).
+    rewrite (g_exact _ _ _ _ _ _ _ _ _ _ _ HI x Hx Hn). cbn [cnt]. unfold u_of, u0. lia.
   Qed.
 
   Lemma hist_size ops st :
@@ -1004,3 +1005,27 @@ Section Ops.
     rewrite E2 in Hc. injection Hc as <-. eapply ondisk_reach; eauto.
   Qed.
 End Ops.
+
+(* ------------------------------------------------------------------ a concrete guarded history *)
+Definition demo_ext (h : N) : list N := if h =? 2 then [1] else [].
+
+Lemma demo_rank : forall h c, In c (demo_kids h ++ demo_ext h) -> (N.to_nat c < N.to_nat h)%nat.
+Proof.
+  intros h c. unfold demo_kids, demo_ext.
+  destruct (N.eqb_spec h 3) as [->|]; [cbn; intuition (subst; lia)|].
+  destruct (N.eqb_spec h 2) as [->|]; cbn; intuition (subst; lia).
+Qed.
+
+Lemma demo_good : good demo_kids demo_ext leak_size 104%Z 102400%Z u0 empty_db demo_ops.
+Proof.
+  unfold demo_ops. cbn [good]. split.
+  - cbn [op_ok]. split; [|split].
+    + cbn [ins_ok]. split; [discriminate|]. split; [cbn; tauto|].
+      split; [discriminate|]. split; [cbn; intuition|].
+      split; [discriminate|]. split; [cbn; intuition|]. exact I.
+    + intros h s Hh Hs. cbn in Hh. destruct Hh as [<-|[<-|[<-|[]]]]; cbn in Hs; intuition. subst. left. reflexivity.
+    + intros s p [E|[]]. injection E as <- <-. cbn. intuition.
+  - intros st' Hs. vm_compute in Hs. injection Hs as <-. split.
+    + cbn [op_ok]. split; [reflexivity|]. left. unfold cached. vm_compute. discriminate.
+    + intros st'' _. exact I.
+Qed.
